@@ -14,8 +14,9 @@ BASELINE = ("for m in gconfig gencommon genum gerror gogenproto gogenproto/inter
             "(cd /repo/$m && GOPROXY=off GOSUMDB=off GOTOOLCHAIN=local go test -json -vet=off -count=1 -timeout 25m ./...); done")
 
 checks, claimed = [], set()
+CLAIMED = [l.strip() for l in open(os.path.join(here, "claimed.txt")) if l.strip()]
 for f in sorted(os.listdir(os.path.join(vlib.VERIF, "props"))):
-    if not (f.startswith("C") and f.endswith(".py")):
+    if not (f.startswith("C") and f.endswith(".py")) or f[:-3] not in CLAIMED:
         continue
     pid = f[:-3]
     m = importlib.import_module(pid).META
